@@ -39,12 +39,12 @@ func main() {
 }
 
 type FuncReport struct {
-	Key      string
-	Err      error
-	Results  []*OblResult
-	Ex       *Exec
-	Time     float64
-	Notes    []string
+	Key     string
+	Err     error
+	Results []*OblResult
+	Ex      *Exec
+	Time    float64
+	Notes   []string
 }
 
 // lemmaObligations builds proof obligations for a lemma.
